@@ -58,7 +58,7 @@ var scenarios = []schedrig.Scenario{
 		w.Until(func() bool { return w.Seen("A2") && w.Seen("B2") })
 		w.Order("A", 2)
 		w.Order("B", 2)
-		w.Vx.Close()
+		w.Close()
 	}},
 	{Name: "posts-wide-queue", Queue: 16, Body: func(w *schedrig.World) {
 		schedrig.Poster(w, "A", 3)
@@ -72,20 +72,20 @@ var scenarios = []schedrig.Scenario{
 		w.Order("A", 3)
 		w.Order("B", 2)
 		w.Order("N", 3) // the queue is never full here: nothing may be dropped
-		w.Vx.Close()
+		w.Close()
 	}},
 	{Name: "escape-then-close", Queue: 8, Body: func(w *schedrig.World) {
 		schedrig.TypeBytes(w, "esc", "\x1b")
 		schedrig.Poster(w, "A", 1)
 		w.Until(func() bool { return w.Seen("A1") })
-		w.Vx.Close()
+		w.Close()
 	}},
 	{Name: "escape-key", Queue: 8, Body: func(w *schedrig.World) {
 		schedrig.TypeBytes(w, "esc", "\x1b")
 		w.Until(func() bool { return w.Seen("key:Escape") })
 		schedrig.TypeBytes(w, "a", "a")
 		w.Until(func() bool { return w.Seen("key:a") })
-		w.Vx.Close()
+		w.Close()
 	}},
 	{Name: "render-vs-input", Queue: 8, Body: func(w *schedrig.World) {
 		schedrig.TypeBytes(w, "keys", "ab")
@@ -96,7 +96,7 @@ var scenarios = []schedrig.Scenario{
 		if i, j := schedrig.IndexOf(w.Got, "key:a"), schedrig.IndexOf(w.Got, "key:b"); i > j {
 			w.Failf("input-order", "terminal input delivered out of order: %v", w.Got)
 		}
-		w.Vx.Close()
+		w.Close()
 	}},
 	{Name: "cursor-position", Queue: 8, Hold: true, Body: func(w *schedrig.World) {
 		vsched.AddEnv("terminal-replies", true, func() bool { return len(w.Con.Held) > 0 }, func() { w.Con.Release(); w.Released = true })
@@ -106,7 +106,7 @@ var scenarios = []schedrig.Scenario{
 		w.Note = append(w.Note, fmt.Sprintf("cursor=%d,%d", row, col))
 		w.Until(func() bool { return w.Seen("A1") })
 		w.Con.Hold = false
-		w.Vx.Close()
+		w.Close()
 	}},
 	{Name: "cursor-position-twice", Queue: 8, Hold: true, Body: func(w *schedrig.World) {
 		vsched.AddEnv("terminal-replies", false, func() bool { return len(w.Con.Held) > 0 }, func() { w.Con.Release(); w.Released = true })
@@ -117,7 +117,7 @@ var scenarios = []schedrig.Scenario{
 		}
 		w.Con.Hold = false
 		w.Con.Release()
-		w.Vx.Close()
+		w.Close()
 	}},
 	{Name: "cursor-position-unanswered-then-F3", Queue: 8, Caps: refterm.CapRGB | refterm.CapSync, Body: func(w *schedrig.World) {
 		w.Con.Mute = true
@@ -130,7 +130,7 @@ var scenarios = []schedrig.Scenario{
 		schedrig.TypeBytes(w, "shift-f3", "\x1b[1;2R")
 		schedrig.TypeBytes(w, "f3", "\x1b[R")
 		w.Until(func() bool { return w.Seen("key:Shift+F3") && w.Seen("key:F3") })
-		w.Vx.Close()
+		w.Close()
 	}},
 	{Name: "queries-from-goroutines-while-rendering", Queue: 8, Body: func(w *schedrig.World) {
 		// two goroutines ask for the cursor position and request resizes while the main goroutine draws
@@ -158,14 +158,14 @@ var scenarios = []schedrig.Scenario{
 		if done < 2 {
 			w.Failf("lost-event", "a querying goroutine never finished: %v", w.Got)
 		}
-		w.Vx.Close()
+		w.Close()
 	}},
 	{Name: "colour-query-unanswered", Queue: 8, Caps: refterm.CapRGB | refterm.CapSync | refterm.CapOSC11, Body: func(w *schedrig.World) {
 		// the terminal answered OSC 11 at start-up (so the capability is on) and now stays silent
 		w.Con.Mute = true
 		_ = w.Vx.QueryBackground()
 		w.Con.Mute = false
-		w.Vx.Close()
+		w.Close()
 	}},
 	{Name: "colour-query-with-resize-report-ahead", Queue: 8, Hold: true, Caps: refterm.CapRGB | refterm.CapSync | refterm.CapOSC11 | refterm.CapSizeReports | refterm.CapInBandResize, Body: func(w *schedrig.World) {
 		// a goroutine asks for the background colour while the main goroutine draws; the user is resizing the
@@ -182,7 +182,7 @@ var scenarios = []schedrig.Scenario{
 		w.Until(func() bool { return w.Seen("Q0") })
 		w.Con.Hold = false
 		w.Con.Release()
-		w.Vx.Close()
+		w.Close()
 	}},
 	{Name: "clipboard", Queue: 8, Hold: true, Body: func(w *schedrig.World) {
 		vsched.AddEnv("terminal-replies", true, func() bool { return len(w.Con.Held) > 0 }, func() { w.Con.Release() })
@@ -196,7 +196,7 @@ var scenarios = []schedrig.Scenario{
 		w.Con.Release()
 		schedrig.TypeBytes(w, "z", "z")
 		w.Until(func() bool { return w.Seen("key:z") })
-		w.Vx.Close()
+		w.Close()
 	}},
 	{Name: "suspend-resume", Queue: 8, Body: func(w *schedrig.World) {
 		schedrig.Poster(w, "A", 2)
@@ -209,7 +209,7 @@ var scenarios = []schedrig.Scenario{
 		}
 		w.Until(func() bool { return w.Seen("A2") })
 		w.Order("A", 2)
-		w.Vx.Close()
+		w.Close()
 	}},
 	{Name: "suspend-resume-in-band-resize", Queue: 8, Caps: refterm.CapRGB | refterm.CapSync | refterm.CapInBandResize | refterm.CapSizeReports, Body: func(w *schedrig.World) {
 		// the same on a terminal that reports its size in band (Resume takes another path there): the final
@@ -222,7 +222,7 @@ var scenarios = []schedrig.Scenario{
 		}
 		schedrig.TypeBytes(w, "k", "k")
 		w.Until(func() bool { return w.Seen("key:k") })
-		w.Vx.Close()
+		w.Close()
 	}},
 	{Name: "suspend-with-escape", Queue: 8, Body: func(w *schedrig.World) {
 		schedrig.TypeBytes(w, "esc", "\x1b")
@@ -231,12 +231,12 @@ var scenarios = []schedrig.Scenario{
 		schedrig.TypeBytes(w, "q", "q")
 		// ESC directly followed by q is Alt+q
 		w.Until(func() bool { return w.Seen("key:q") || w.Seen("key:Alt+q") })
-		w.Vx.Close()
+		w.Close()
 	}},
 	{Name: "close-with-full-queue", Queue: 2, Body: func(w *schedrig.World) {
 		schedrig.TypeBytes(w, "keys", "abcdefg")
 		w.Until(func() bool { return w.Seen("key:a") })
-		w.Vx.Close()
+		w.Close()
 	}},
 	{Name: "suspend-with-full-queue", Queue: 2, Body: func(w *schedrig.World) {
 		schedrig.TypeBytes(w, "keys", "abcdefg")
@@ -244,7 +244,7 @@ var scenarios = []schedrig.Scenario{
 		w.Vx.Suspend()
 		w.Vx.Resume()
 		w.Until(func() bool { return w.Seen("key:g") })
-		w.Vx.Close()
+		w.Close()
 	}},
 	{Name: "sigterm", Queue: 8, Body: func(w *schedrig.World) {
 		vsched.AddEnv("SIGTERM", true, func() bool { return true }, func() { vsignal.Deliver(syscall.SIGTERM) })
@@ -259,7 +259,7 @@ var scenarios = []schedrig.Scenario{
 		if !w.Seen("quit") {
 			w.Failf("lost-event", "no QuitEvent after SIGTERM; seen: %v", w.Got)
 		}
-		w.Vx.Close()
+		w.Close()
 	}},
 	{Name: "spinner", Queue: 8, Body: func(w *schedrig.World) {
 		sp := spinner.New(w.Vx, 100*time.Millisecond)
@@ -276,7 +276,7 @@ var scenarios = []schedrig.Scenario{
 			sp.Draw(w.Vx.Window())
 		}
 		stopSpinner(w, sp)
-		w.Vx.Close()
+		w.Close()
 	}},
 	{Name: "spinner-with-full-queue", Queue: 2, Body: func(w *schedrig.World) {
 		// the spinner ticks into a queue that other posters keep full while the application draws it
@@ -293,7 +293,7 @@ var scenarios = []schedrig.Scenario{
 			w.Failf("lost-event", "blocking posts not delivered: %v", w.Got)
 		}
 		stopSpinner(w, sp)
-		w.Vx.Close()
+		w.Close()
 	}},
 	{Name: "spinner-start-stop-from-worker", Queue: 8, Body: func(w *schedrig.World) {
 		// a worker starts the spinner and stops it again before the main goroutine has had a turn: both
@@ -307,7 +307,7 @@ var scenarios = []schedrig.Scenario{
 		})
 		w.Until(func() bool { return w.Seen("W0") && count(w.Got, "syncfunc") >= 2 })
 		sp.Draw(w.Vx.Window())
-		w.Vx.Close()
+		w.Close()
 	}},
 	{Name: "spinner-stop-start-from-worker", Queue: 8, Body: func(w *schedrig.World) {
 		// the mirror image: a running spinner is stopped and started again by a worker; it must be
@@ -324,7 +324,7 @@ var scenarios = []schedrig.Scenario{
 		from := len(w.Got)
 		w.Until(func() bool { return count(w.Got[from:], "redraw") > 0 })
 		stopSpinner(w, sp)
-		w.Vx.Close()
+		w.Close()
 	}},
 	{Name: "sigwinch", Queue: 8, Body: func(w *schedrig.World) {
 		vsched.AddEnv("SIGWINCH", true, func() bool { return true }, func() {
@@ -333,7 +333,7 @@ var scenarios = []schedrig.Scenario{
 		})
 		schedrig.Poster(w, "A", 1)
 		w.Until(func() bool { return w.Seen("A1") && w.Seen("resize:30x8") })
-		w.Vx.Close()
+		w.Close()
 	}},
 }
 
